@@ -12,6 +12,7 @@ from vlib.core import Machinery
 C08 = {"original-not-recovered", "detection-iff-not-walk"}
 C09 = {"clean-strand-not-left-alone", "not-sorted-unique", "candidate-fails-check"}
 C10 = {"termination-bound", "raises", "malformed-result", "lookup-bound"}
+CAND_CAP = 20000
 
 
 _ACC = {}
@@ -31,7 +32,7 @@ def shared_accessor(live):
     return acc
 
 
-def run_repair(acc, start, dna_digits, k, vt, indel, heap, log=False, prior=False):
+def run_repair(acc, start, dna_digits, k, vt, indel, heap, log=False, prior=False, slack=1):
     s = impl.dna(dna_digits)
     if prior:
         # history: the same strand was repaired just before on the same objects with the other has_indel setting and without a check;
@@ -43,7 +44,7 @@ def run_repair(acc, start, dna_digits, k, vt, indel, heap, log=False, prior=Fals
         if (len(s) + start) % 4 == 0:
             kw["vt_check"] = numpy.str_(kw["vt_check"])          # a check picked from a numpy array of per-strand checks (a str subclass)
     kw["heap_size"] = 1e9 if heap == -1 else heap
-    r = impl.call(dsw.repair_dna, s, acc, start, k, _budget=len(s) + 1, _alarm=60, _log=log, **kw)
+    r = impl.call(dsw.repair_dna, s, acc, start, k, _budget=(len(s) + 1) * slack, _alarm=60, _log=log, **kw)
     o = {"out": cf.outcome(r), "cands": [], "det": 0, "flag": False, "count": 0, "visited": 0, "ticks": r["ticks"], "shape": False,
          "tl": [[int(sc["location"]), int(sc["vertex"]), int(sc["seglen"])] for site, sc in (r.get("log") or []) if site == "rep_scan"]}
     if r["out"] == "ok":
@@ -62,14 +63,19 @@ def run_repair(acc, start, dna_digits, k, vt, indel, heap, log=False, prior=Fals
 
 def replay_rec(rec):
     """Flow A for one MC_Repair record -> list of (clause, expected, observed) over all three properties + conformance notes."""
-    acc = shared_accessor(rec["live"])
+    # half of the records use the worker's long-lived accessor object of that graph (a user session), the others a fresh array that is
+    # dropped afterwards (object identities are re-used by later graphs: a memo keyed on id() then serves another graph's data)
+    acc = shared_accessor(rec["live"]) if (len(rec["dna"]) + rec["start"]) % 2 == 0 else impl.accessor(rec["live"])
     o = run_repair(acc, rec["start"], rec["dna"], rec["k"], rec["vt"], rec["indel"], rec["heap"],
                    prior=(len(rec["dna"]) + sum(rec["dna"]) + rec["start"]) % 2 == 0)
     bad = []
     n = len(rec["dna"])
     if o["out"] == "budget" or o["ticks"] > n:
         bad.append(("termination-bound", "at most %d scan iterations" % n, o["ticks"]))
-        return bad
+        # the scan bound belongs to C10; the answer itself is still owed to C08 / C09: ask again with a generous budget
+        o = run_repair(acc, rec["start"], rec["dna"], rec["k"], rec["vt"], rec["indel"], rec["heap"], slack=20)
+        if o["out"] == "budget":
+            return bad
     if o["out"] != "ok":
         bad.append(("raises", "returns", o["out"]))
         return bad
@@ -94,6 +100,14 @@ def case_of(gidx, rec, o, w=None, es=None):
          "w": w if w is not None else rec.get("w", []), "es": es if es is not None else rec.get("es", [])}
     c.update({k: o[k] for k in ("out", "cands", "det", "flag", "count", "visited", "ticks", "shape")})
     c["tl"] = o.get("tl", [])
+    if len(c["cands"]) > CAND_CAP:
+        # an oversized answer (never seen on the pinned tree): the trace spec gets a prefix - order, duplicates and check consistency are
+        # judged on it (a fault in the prefix is a fault); membership of the original is decided on the full list here, by equality
+        full = c["cands"]
+        c["cands"] = full[:CAND_CAP]
+        if c["w"] and c["w"] in full and c["w"] not in c["cands"]:
+            c["w"], c["es"] = [], []
+        c["tl"] = []
     return c
 
 
